@@ -668,3 +668,25 @@ def gen_shared_delay(rng):
     rng.shuffle(order)
     maxstep = max(max(c["steps"]) for c in comps)
     return {"comps": permute(comps, order), "end": max(c["start"] for c in comps) + rng.choice([2, 3, 5]) * maxstep}
+
+
+def gen_two_relays(rng):
+    """A consumer that depends on TWO different pull-based relays with different required times: one link direct, the
+    other delayed (declared first or last), delay shorter than the consumer's step, sources finer than the consumer."""
+    unit = rng.choice(UNITS)
+    sa = unit * rng.choice([1, 1, 2])
+    sb = unit * rng.choice([1, 1, 2])
+    scc = max(sa, sb) * rng.choice([3, 4, 5])
+    d = rng.choice([sa, 2 * sa, scc - sa, max(1, scc // 2)])
+    d = max(1, min(d, scc - 1))
+    comps = [{"kind": "T", "start": 0, "steps": [sa], "initpull": False, "nout": 1, "inputs": []},
+             {"kind": "T", "start": 0, "steps": [sb], "initpull": False, "nout": 1, "inputs": []},
+             {"kind": "P", "nout": 1, "inputs": [{"src": [0, 0], "chain": [["pass"]] if rng.random() < 0.3 else []}]},
+             {"kind": "P", "nout": 1, "inputs": [{"src": [1, 0], "chain": []}]}]
+    direct = {"src": [2, 0], "chain": [["pass"]] if rng.random() < 0.3 else []}
+    delayed = {"src": [3, 0], "chain": [["fixed", d]]}
+    ins = [direct, delayed] if rng.random() < 0.6 else [delayed, direct]
+    comps.append({"kind": "T", "start": 0, "steps": [scc], "initpull": rng.random() < 0.3, "nout": 0, "inputs": ins})
+    order = list(range(len(comps)))
+    rng.shuffle(order)
+    return {"comps": permute(comps, order), "end": scc * rng.choice([2, 3, 4])}
